@@ -318,6 +318,8 @@ class Interp:
             return ModuleRef(r[1])
         if kind == "external":
             dotted = r[1]
+            if name in self.overrides and callable(self.overrides[name]):
+                return ("override", name)
             return self.external(dotted)
         raise OutsideFragment(f"cannot resolve {name}")
 
@@ -396,6 +398,8 @@ class Interp:
             return self.apply_funcref(fn, args, kwargs)
         if isinstance(fn, UFunc):
             return self.apply_ufunc(fn, args)
+        if isinstance(fn, tuple) and fn and fn[0] == "override":
+            return self.overrides[fn[1]](self, args, kwargs)
         if isinstance(fn, tuple) and fn and fn[0] == "builtin":
             return self.builtin(fn[1], args, kwargs)
         if isinstance(fn, tuple) and fn and fn[0] == "np":
@@ -865,6 +869,10 @@ class Interp:
                 self.exec_block(st.orelse, env)
             self.exec_block(st.finalbody, env)
         elif isinstance(st, ast.With):
+            for item in st.items:
+                ctx = self.eval(item.context_expr, env)
+                if item.optional_vars is not None:
+                    self.assign(item.optional_vars, ctx, env)
             self.exec_block(st.body, env)
         elif isinstance(st, (ast.Import, ast.ImportFrom)):
             tmp = ast.Module(body=[st], type_ignores=[])
@@ -1586,6 +1594,11 @@ class Interp:
                 return SuperProxy(first, owner)
             return Opaque("super")
         return self.apply(fn, args, kwargs)
+
+    def e_NamedExpr(self, node, env):
+        v = self.eval(node.value, env)
+        self.assign(node.target, v, env)
+        return v
 
     def e_Starred(self, node, env):
         raise OutsideFragment("starred expression")
